@@ -154,8 +154,16 @@ def chord_case(draw):
     t0 = draw(st.sampled_from([0.0, 0.0, 0.5, 2.0]))
     T = t0 + draw(st.integers(2, 24)) / 2
     ref_iv = draw(gs.partition(T, q=q, t0=t0))
-    pool = draw(st.sampled_from([CHORD_LABELS, CHORD_LABELS[:8], ["N", "X", "C:maj"], ["X"], ["N"], ["D:9", "D:7", "D:7(9)"]]))
+    pool = draw(st.sampled_from([CHORD_LABELS, CHORD_LABELS[:8], ["N", "X", "C:maj"], ["X"], ["N"], ["D:9", "D:7", "D:7(9)"],
+                                  ["E:9", "E:9(13)", "C:maj9", "C:maj9(#11)", "A:min9", "A:min9(11)", "G:13", "G:13(#9)"]]))     # an extended shorthand and the same chord with one more degree
     ref_lab = draw(st.lists(st.sampled_from(pool), min_size=len(ref_iv), max_size=len(ref_iv)))
+    if len(ref_iv) >= 2 and draw(st.integers(0, 5)) == 0:
+        # an extended shorthand directly followed by the same chord with one more degree (72 combinations: state that the second label
+        # leaves behind in a module-level table shows only the first time a combination is seen in a process)
+        i_ = draw(st.integers(0, len(ref_iv) - 2))
+        root_, q_ = draw(st.sampled_from(["C", "E", "Bb", "F#"])), draw(st.sampled_from(["9", "maj9", "min9", "11", "min11", "13", "maj13", "min13", "minmaj7"]))
+        d_ = draw(st.sampled_from(["6", "b6", "#11", "b13", "#9", "b9", "#5", "b5"]))
+        ref_lab[i_], ref_lab[i_ + 1] = "%s:%s" % (root_, q_), "%s:%s(%s)" % (root_, q_, d_)
     shape = draw(st.sampled_from(["regular", "regular", "identical", "span", "span", "one_interval"]))
     if shape == "identical":
         est_iv, est_lab = [list(r) for r in ref_iv], list(ref_lab)
